@@ -935,8 +935,8 @@ pub fn run_c15(a: &Args) {
     reqs.push("c15.run proxy=1 allow=11 limit=0 via=listener hdrs=1/0;2/4;1/1 login=0".into());
     // the operator's own spelling of the limiter and PROXY settings, through the environment and through a file
     let _ = operator_cfgs();
-    reqs.push("c15.run proxy=1 allow=10 limit=2 via=env hdrs=1/0;2/0;1/0;1/4;2/1;1/1;1/1;1/7 login=0".into());
-    reqs.push("c15.run proxy=1 allow=01 limit=2 via=file hdrs=1/4;2/4;1/0;1/4;2/5;1/5;1/5;1/6;1/6;2/6 login=0".into());
+    reqs.push("c15.run proxy=1 allow=10 limit=2 via=env hdrs=1/4;1/0;2/0;1/0;1/5;2/1;1/1;1/1;1/7 login=0".into());
+    reqs.push("c15.run proxy=1 allow=01 limit=2 via=file hdrs=1/0;1/4;2/4;1/1;1/4;2/5;1/5;1/5;1/6;1/6;2/6 login=0".into());
     // bursts: many simultaneous connections of one address, server on several workers
     for k in 0..(if a.thorough { 12 } else { 4 }) {
         let proxy = k % 2 == 1;
